@@ -54,7 +54,7 @@ PROPS = {
     ),
     "C04": dict(
         modules=['Gopki.Props.C04', 'Gopki.Props.C05', 'Gopki.Props.C02'],
-        theorems=['C02.C02_time_roundtrip', 'Calendar.civilFromDays_daysFromCivil', 'Calendar.wallOf_goDate_midnight', 'C04.C04_date_is_local_midnight', 'C04.C04_invalid_rejected', 'C04.C04_duration_grammar', 'C04.C04_duration_months_digits', 'C04.C04_utc_tag', 'C04.C04_inherit', 'Calendar.era_split', 'Calendar.yoe_table', 'Cal.mp_inv', 'Cal.doy_bounds', 'C05.model_defaults_eq_facts'],
+        theorems=['C02.C02_time_roundtrip', 'C04.C04_instant_roundtrip', 'C04.C04_calendar_bijection', 'Calendar.civilFromDays_daysFromCivil', 'Calendar.wallOf_goDate_midnight', 'C04.C04_date_is_local_midnight', 'C04.C04_invalid_rejected', 'C04.C04_duration_grammar', 'C04.C04_duration_months_digits', 'C04.C04_utc_tag', 'C04.C04_inherit', 'Calendar.era_split', 'Calendar.yoe_table', 'Cal.mp_inv', 'Cal.doy_bounds', 'C05.model_defaults_eq_facts'],
         ops=["validity", "pki"],
         rule="validity: every calendar day of two years (thorough: 1950-2200) x rotating zone offsets x {from, until, from+duration, from+until}, boundary dates x 9 offsets x 15 durations, "
              "impossible dates, malformed durations, random combinations; non-trivial = well-formed input with at least one of from/until/duration",
